@@ -8,7 +8,7 @@ RULE = ("cycles of 1..6 elements (durations 1..9, sometimes up to 10^6; all colo
         "distinct = distinct canonical JSON of the case")
 ASSUMPTIONS = ["numpy cumsum/insert/argmax on int64 denote their list counterparts (sampled by the correspondence)",
                "durations and time steps fit in int64 (numpy); the model uses unbounded integers"]
-REQUIRED_BUCKETS = ["single-element", "t<offset", "boundary", "many-periods"]
+REQUIRED_BUCKETS = ["single-element", "t<offset", "boundary", "many-periods", "light/cycle-replaced"]
 
 
 def _states():
@@ -94,6 +94,19 @@ def run_case(ctx, case):
             ctx.fail("C17/light.get_state_at_time_step/disagrees-with-cycle",
                      f"TrafficLight reports {b}, its cycle {a} at t={t}", sub)
         # periodicity
+    # TrafficLight keeps agreeing with its cycle after the cycle is replaced / edited (query -> set -> query)
+    es2 = [[(s + 1) % len(st), d + (i % 2)] for i, (s, d) in enumerate(es)][::-1]
+    cyc2 = TrafficLightCycle([TrafficLightCycleElement(st[s], d) for s, d in es2], time_offset=off + 1)
+    light.traffic_light_cycle = cyc2
+    for t in ts[:12]:
+        a2, b2 = call(cyc2.get_state_at_time_step, t), call(light.get_state_at_time_step, t)
+        want2 = oracle_state(es2, off + 1, t)
+        if b2[:2] != a2[:2] or (b2[0] == "ok" and st.index(b2[1]) != want2):
+            ctx.fail("C17/light.get_state_at_time_step/disagrees-with-cycle-after-replacement",
+                     f"after light.traffic_light_cycle = <new cycle>: light reports {b2[1]}, new cycle defines {st[want2].name} at t={t}",
+                     {"es": es, "off": off, "ts": [t]})
+            break
+    ctx.tag("light/cycle-replaced")
     tt = ts[len(ts) // 2]
     r1, r2 = call(mk().get_state_at_time_step, tt), call(mk().get_state_at_time_step, tt + total)
     if r1[:2] != r2[:2]:
